@@ -35,20 +35,30 @@ N_B = rs("t/holder", [["record", "sub"]], [B])
 P1 = rs("t/p1", [["stringlist", "a"]], ["['l1']"])
 P2 = rs("t/p2", [["string", "b"], ["path", "p"]], ["'sb'", "'/c'"])
 G_ALT = {"group": "g/ac", "members": [P1, P2]}  # same group name and flattened fields as G, other member types
-G_AA2 = {"group": "g/aa2", "members": [A2, A]}  # two members sharing a type name but not the fields
+G_AA2 = {"group": "g/aa2", "members": [A2, A]}
+G_AB = {"group": "g/ab", "members": [A, B]}  # two members whose identifiers coincide inside ONE frame (found by the TLA+ model)  # two members sharing a type name but not the fields
 F_BAD = rs("t/f", [["string", "s"]], ["chr(0xd800)"])  # cannot be encoded: the write raises after the type was registered
 F_OK = rs("t/f", [["string", "s"]], ["'fine'"])
 NF_BAD = rs("t/nf", [["record", "sub"]], [F_BAD])
 NF_OK = rs("t/nf", [["record", "sub"]], [F_OK])
-KINDS = {"G_ALT": G_ALT, "G_AA2": G_AA2, "F_BAD": F_BAD, "F_OK": F_OK, "NF_BAD": NF_BAD, "NF_OK": NF_OK, "A": A, "B": B, "A2": A2, "C": C, "N_A": N_A, "N_X": N_X, "G": G, "G_Y": G_Y, "G_B": G_B, "N_B": N_B}
+F2_BAD = dict(rs("t/f2", [["uint32[]", "xs"]], ["[1]"]), mutate=[["xs", "'not a number'"]])  # refused inside Record._pack()
+F2_OK = rs("t/f2", [["uint32[]", "xs"]], ["[2]"])
+U1 = rs("u/v_w", [["string", "s"]], ["'one'"])  # same Python-safe class name as U2, same fields
+U2 = rs("u/v/w", [["string", "s"]], ["'two'"])
+KINDS = {"F2_BAD": F2_BAD, "F2_OK": F2_OK, "U1": U1, "U2": U2, "G_AB": G_AB, "G_ALT": G_ALT, "G_AA2": G_AA2, "F_BAD": F_BAD, "F_OK": F_OK, "NF_BAD": NF_BAD, "NF_OK": NF_OK, "A": A, "B": B, "A2": A2, "C": C, "N_A": N_A, "N_X": N_X, "G": G, "G_Y": G_Y, "G_B": G_B, "N_B": N_B}
 
 CONF = {}  # set in main(): {"packer": "binary"|"json", "m": int, "kinds": [...]}
 
 
 def kinds_for(packer, names):
     if packer == "json":
-        return [k for k in names if not k.startswith("G")]
+        # JSON lines has no grouped encoding; a typed list mutated in place is not validated by the JSON writer (garbage in)
+        return [k for k in names if not k.startswith("G") and not k.startswith("F2_")]
     return list(names)
+
+
+CORE = ["A", "B", "A2", "C", "N_A", "N_X", "G", "G_Y", "G_B", "N_B", "G_AB"]
+SPECIAL = ["A", "C", "G", "G_ALT", "G_AA2", "F_BAD", "F_OK", "NF_BAD", "NF_OK", "F2_BAD", "F2_OK", "U1", "U2"]
 
 
 def generic_canon(obj, depth=0):
@@ -206,7 +216,7 @@ def step_binary(hist, conf):
             writers[w].write(r)
             written[w].append(r)
             last_failed = False
-        except (UnicodeError, ValueError, TypeError):
+        except (UnicodeError, ValueError, TypeError, OverflowError):
             last_failed = True  # a refused record: nothing of it may count as written; later records must still decode
     viol = []
     case = {"kind": "hist", "packer": "binary", "m": m, "history": hist}
@@ -236,6 +246,10 @@ def step_binary(hist, conf):
         w, k = hist[-1]
         expected = obs_list(written[w])
         sig_kinds = "%s:%s" % (k, conflict_class(hist))
+        spec = KINDS[k]
+        if "name" in spec and written[w] and (written[w][-1]._desc.name != spec["name"] or
+                                              [list(t) for t in written[w][-1]._desc.get_field_tuples()] != [list(f) for f in spec["fields"]]):
+            viol.append(("C03:binary:record-reports-another-descriptor:%s" % k, case, {"asked": spec["name"], "reports": written[w][-1]._desc.name}))
         # (1) reference decoder, frame by frame (tolerant: an earlier bad record was reported on its own transition)
         got = ref_tolerant(datas[w])
         out = "ok"
@@ -383,6 +397,9 @@ def step_json(hist, conf):
 
 def run_case(case):
     """Replay: judge every prefix of the history."""
+    if case.get("kind") == "tla-edge":
+        ok, got = replay_edge((case["path"], None, case["writers"]))
+        return {"ev": 1, "h": jhash(case), "viol": [("C03:tla:implementation-diverges-from-model:%s" % case["path"][-1][1], case, {"implementation_frames": got})]}
     CONF.update({"packer": case["packer"], "m": case["m"], "kinds": list(KINDS)})
     viol = []
     hist = case["history"]
@@ -391,13 +408,145 @@ def run_case(case):
     return {"ev": len(hist), "h": jhash(case), "viol": viol}
 
 
+# ---- TLA+ leg: TLC explores tla/DescriptorProtocol.tla; EVERY edge of its state graph is replayed on real writers -------------
+
+TLA_KIND = {"A": "A", "B": "B", "A2": "A2", "C": "C", "NA": "N_A", "NB": "N_B", "NX": "N_X", "G": "G", "GB": "G_B", "GAB": "G_AB"}
+TLA_DESC = {("t/x", (("stringlist", "a"), ("string", "b"))): "A", ("t/x", (("string", "a"), ("string", "listb"))): "B", ("t/x", (("varint", "n"),)): "A2",
+            ("t/c", (("path", "p"),)): "C", ("t/holder", (("record", "sub"),)): "HA", ("t/holders", (("record[]", "subs"),)): "HX", ("t/nestedonly", (("varint", "q"),)): "X"}
+_TLA = {}
+
+
+def run_tlc(cfg, workers):
+    import re
+    import shutil
+    import subprocess
+    import tempfile
+
+    root = os.path.join(os.path.dirname(os.path.dirname(os.path.abspath(__file__))), "tla")
+    d = tempfile.mkdtemp(prefix="tlc-", dir=os.environ["VERIF_SCRATCH"])
+    try:
+        for f in ("DescriptorProtocol.tla", cfg):
+            shutil.copy(os.path.join(root, f), d)
+        p = subprocess.run(["tlc", "-workers", str(min(4, workers or 4)), "-noGenerateSpecTE", "-metadir", os.path.join(d, "meta"), "-config", cfg,
+                            "-dump", "dot,actionlabels", os.path.join(d, "graph"), "DescriptorProtocol.tla"], cwd=d, capture_output=True, text=True, timeout=1500)
+        out = p.stdout
+        m = re.search(r"(\d+) states generated, (\d+) distinct states found", out)
+        violated = "Invariant" in out and "is violated" in out
+        nodes, edges = {}, []
+        init = None
+        with open(os.path.join(d, "graph.dot")) as f:
+            for line in f:
+                me = re.match(r'^(-?\d+) -> (-?\d+) \[label="Write\(\\"(\w+)\\",\\"(\w+)\\"\)"', line)
+                if me:
+                    edges.append((me.group(1), me.group(2), me.group(3), me.group(4)))
+                    continue
+                mn = re.match(r'^(-?\d+) \[label="(.*?)(?<!\\)"', line)
+                if mn:
+                    lab = mn.group(2)
+                    a = lab.find("last = ")
+                    b = lab.find("\\n", a) if a >= 0 else -1
+                    seg = lab[a:b if b >= 0 else len(lab)] if a >= 0 else ""
+                    frames = re.findall(r'<<\\"(\w+)\\", \\"(\w+)\\">>', seg)
+                    nodes[mn.group(1)] = {"last": [list(x) for x in frames], "bad": "bad = TRUE" in lab}
+                    if "style = filled" in line and init is None:
+                        init = mn.group(1)
+        return {"stdout_tail": out[-600:], "generated": int(m.group(1)) if m else None, "distinct": int(m.group(2)) if m else None,
+                "violated": violated, "nodes": nodes, "edges": edges, "init": init}
+    finally:
+        shutil.rmtree(d, ignore_errors=True)
+
+
+def replay_edge(job):
+    """job = (path of [writer, kind] pairs incl. the edge's own action, expected frames of the last step, writers)"""
+    from flow.record import RecordStreamWriter
+
+    path, want, wnames = job
+    bufs = {w: io.BytesIO() for w in wnames}
+    writers = {w: RecordStreamWriter(bufs[w]) for w in wnames}
+    before = 0
+    for i, (w, k) in enumerate(path):
+        if i == len(path) - 1:
+            before = len(bufs[w].getvalue())
+        writers[w].write(recs.build_record(KINDS[TLA_KIND[k]]))
+    w, k = path[-1]
+    delta = bufs[w].getvalue()[before:]
+    got = []
+    for _, _, payload in refcodec.split_frames(delta):
+        v = refcodec.mp_one(payload)
+        if isinstance(v, refcodec.Bin):
+            continue  # stream header
+        st, val = refcodec.mp_one(v.data)
+        if st == refcodec.T_DESC:
+            name, fields = val
+            got.append(["D", TLA_DESC.get((name, tuple(tuple(f) for f in fields)), "?%s" % name)])
+        else:
+            got.append(["R", k])
+    for wr in writers.values():
+        wr.fp = None
+    return got == want, got
+
+
+def tla_leg(run, cfg, workers, label):
+    import multiprocessing as mp
+
+    g = run_tlc(cfg, workers)
+    nodes, edges, init = g["nodes"], g["edges"], g["init"]
+    if not nodes or init is None:
+        run.internal_errors.append("TLC produced no state graph for %s: %s" % (cfg, g["stdout_tail"][-300:]))
+        return {}
+    # shortest path (as action list) to every node
+    adj = {}
+    for s_, t_, w, k in edges:
+        adj.setdefault(s_, []).append((t_, w, k))
+    path = {init: []}
+    order = [init]
+    for n in order:
+        for t_, w, k in adj.get(n, ()):
+            if t_ not in path:
+                path[t_] = path[n] + [[w, k]]
+                order.append(t_)
+    wnames = sorted({w for _, _, w, _ in edges})
+    jobs = [(path[s_] + [[w, k]], nodes[t_]["last"], wnames) for s_, t_, w, k in edges if s_ in path]
+    ctx = mp.get_context("fork")
+    diverged = 0
+    with ctx.Pool(workers or 16) as pool:
+        for (ok, got), job in zip(pool.imap(replay_edge, jobs, chunksize=256), jobs):
+            if not ok:
+                diverged += 1
+                run.add_violation("C03:tla:implementation-diverges-from-model:%s" % job[0][-1][1], {"kind": "tla-edge", "path": job[0], "writers": job[2]},
+                                  {"model_frames": job[1], "implementation_frames": got})
+    bad_nodes = [n for n, v in nodes.items() if v["bad"]]
+    info = {"cfg": cfg, "tlc_states_generated": g["generated"], "tlc_distinct_states": g["distinct"], "graph_nodes": len(nodes), "graph_edges": len(edges),
+            "edges_replayed_on_implementation": len(jobs), "edges_diverging": diverged, "invariant_violated_in_model": g["violated"] or bool(bad_nodes)}
+    if g["violated"] or bad_nodes:
+        # a protocol defect found on the model: confirm it on the code with the shortest history that reaches a bad state
+        n = min(bad_nodes, key=lambda x: len(path.get(x, [0] * 99))) if bad_nodes else None
+        hist = path.get(n) if n else None
+        info["model_counterexample"] = hist
+        if hist:
+            CONF.clear()
+            CONF.update({"packer": "binary", "m": len(wnames), "kinds": list(KINDS)})
+            widx = {w: i for i, w in enumerate(wnames)}
+            h2 = [[widx[w], TLA_KIND[k]] for w, k in hist]
+            res = step(h2)
+            info["counterexample_confirmed_on_implementation"] = bool(res["viol"])
+            for sig, case, detail in res["viol"]:
+                run.add_violation(sig, case, detail)
+            if not res["viol"]:
+                run.add_violation("C03:tla:model-violation-not-reproduced-on-code:%s" % hist[-1][1], {"kind": "tla-edge", "path": hist, "writers": wnames}, {})
+    run.extra.setdefault("tla", []).append(info)
+    return info
+
+
 def main(tier, seed, workers=None):
     run = Run(PROP, "model_checking", tier, seed, RULE)
     thorough = tier == "thorough"
     plans = [
-        ("binary", 1, list(KINDS), 12),
+        ("binary", 1, CORE, 12),
+        ("binary", 1, SPECIAL, 12),
         ("binary", 2, ["A", "A2", "B", "N_X", "G_Y"] if not thorough else ["A", "A2", "B", "C", "N_A", "N_X", "G", "G_Y"], 14),
-        ("json", 1, kinds_for("json", KINDS), 12),
+        ("json", 1, kinds_for("json", CORE), 12),
+        ("json", 1, kinds_for("json", SPECIAL), 12),
         ("json", 2, ["A", "A2", "B", "N_X"] if not thorough else kinds_for("json", ["A", "A2", "B", "C", "N_A", "N_X", "N_B"]), 14),
     ]
     if thorough:
@@ -412,6 +561,11 @@ def main(tier, seed, workers=None):
         machines.append({"packer": packer, "writers": m, "kinds": kinds, "states": s, "transitions": t, "fixpoint": fix, "depth": depth})
         tot_s += s
         tot_t += t
+    # TLA+ leg: model checked by TLC, every edge replayed against the implementation
+    t1 = tla_leg(run, "DescriptorProtocol1.cfg" if not thorough else "DescriptorProtocol.cfg", workers, "tla")
+    t2 = tla_leg(run, "DescriptorProtocolGAB.cfg", workers, "tla-gab") if thorough else {}
+    tot_s += (t1.get("graph_nodes") or 0) + (t2.get("graph_nodes") or 0)
+    tot_t += (t1.get("graph_edges") or 0) + (t2.get("graph_edges") or 0)
     run.states, run.transitions, run.traces = tot_s, tot_t, tot_t
     run.extra["machines"] = machines
     run.assumptions = ["canonical state = packer registries + reference reader registry; bytes already written are judged on the transition that produced them",
